@@ -16,6 +16,9 @@
 #ifndef VERIF_GARRAY_CAP
 #define VERIF_GARRAY_CAP 4
 #endif
+#ifndef VERIF_GARRAY_SPLIT
+#define VERIF_GARRAY_SPLIT 4
+#endif
 #ifndef VERIF_QCAP
 #define VERIF_QCAP 4
 #endif
@@ -50,9 +53,18 @@ GArray *g_array_new(gboolean zero_terminated, gboolean clear_, guint element_siz
 GArray *g_array_append_vals(GArray *array, gconstpointer data, guint len) {
 	VArray *a = (VArray *)array;
 	__CPROVER_assume(a->pub.len + len <= a->cap); /* bound: list capacity */
-	unsigned char *dst = (unsigned char *)a->pub.data + (size_t)a->pub.len * a->esize;
 	const unsigned char *src = data;
 	size_t n = (size_t)len * a->esize;
+	/* case split on the (possibly symbolic) current length so that every copy goes to a concrete offset */
+	for (guint k = 0; k < VERIF_GARRAY_SPLIT; k++) {
+		if (a->pub.len == k) {
+			unsigned char *dst = (unsigned char *)a->pub.data + (size_t)k * a->esize;
+			for (size_t i = 0; i < n; i++) dst[i] = src[i];
+			a->pub.len += len;
+			return array;
+		}
+	}
+	unsigned char *dst = (unsigned char *)a->pub.data + (size_t)a->pub.len * a->esize;
 	for (size_t i = 0; i < n; i++) dst[i] = src[i];
 	a->pub.len += len;
 	return array;
@@ -60,6 +72,10 @@ GArray *g_array_append_vals(GArray *array, gconstpointer data, guint len) {
 GArray *g_array_remove_range(GArray *array, guint index_, guint length) {
 	VArray *a = (VArray *)array;
 	__CPROVER_assert(index_ + length <= a->pub.len, "GLIB: g_array_remove_range within len");
+	if (index_ + length == a->pub.len) {   /* removing a tail (incl. "clear"): nothing moves */
+		a->pub.len -= length;
+		return array;
+	}
 	unsigned char *d = (unsigned char *)a->pub.data;
 	size_t from = (size_t)(index_ + length) * a->esize;
 	size_t to = (size_t)index_ * a->esize;
